@@ -31,3 +31,9 @@ Theorem C04_aligned_refuted_pinned :
   let c := fold_left cstep_pinned [OLinkStart; OAdd "a"; OAdd "b"; OCloseFrom 0 0; ORemove "a" [true]]%string coll_init in
   ~ aligned c.
 Proof. exact aligned_refuted_pinned. Qed.
+
+(** regenerated from link.go on every run: a link leaves the collection only from write(), after the
+    destination was closed - so a connection whose sender has closed but whose data or close is
+    still held by a toxic is still reached by every chain operation *)
+Theorem C04_links_stay_registered_until_written : link_unregistered_only_by_writer = true.
+Proof. reflexivity. Qed.
